@@ -82,6 +82,7 @@ pub enum Base {
     MoreTestMore,
     MorePing,
     HandlerErr,
+    StreamHelperMid,
 }
 
 pub const ALL_BASES: &[Base] = &[
@@ -112,6 +113,7 @@ pub const ALL_BASES: &[Base] = &[
     Base::MoreTestMore,
     Base::MorePing,
     Base::HandlerErr,
+    Base::StreamHelperMid,
 ];
 
 /// a request kind = base behaviour + flags
@@ -159,6 +161,12 @@ pub fn build(cfg: &SvcCfg, k: Kind, token: &str) -> Value {
         Base::StreamErrEnd => request(
             &format!("{}.Script", a),
             Some(json!({"token": token, "script": ["c1", "r", "c0", "e"]})),
+            f,
+        ),
+        // the standard error helpers of CallTrait used in mid-stream: the stream goes on behind them
+        Base::StreamHelperMid => request(
+            &format!("{}.Script", a),
+            Some(json!({"token": token, "script": ["c1", "r", "ei", "r", "em", "c0", "r"]})),
             f,
         ),
         Base::ScriptGatedIgnore => request(
@@ -253,6 +261,26 @@ pub fn full() -> Vec<Kind> {
                 more: Some(false),
                 oneway: Some(false),
                 upgrade: Some(false),
+            },
+        ));
+    }
+    // the upgrade flag on calls that do not upgrade (answered, refused, unknown): the flag alone
+    // must not change what happens to the connection
+    for &b in &[
+        Base::GetInfo,
+        Base::Echo,
+        Base::Fail,
+        Base::UnknownIface,
+        Base::ScriptedUnknownMethod,
+        Base::PingBadType,
+        Base::NoDot,
+    ] {
+        v.push(Kind(
+            b,
+            Flags {
+                more: None,
+                oneway: None,
+                upgrade: Some(true),
             },
         ));
     }
